@@ -28,7 +28,7 @@ ASSUMPTIONS = ["symbolic links inside experiment outputs are part of the tree (r
 ESSENTIAL = ["latest", "task_closure_with_nonarchivable_between", "diamond_below_task", "nested_pkg", "name_leading_dash_root_pkg",
              "undefined_task_rows", "empty_output_dir", "symlink_in_output", "equal_ts_across_tasks", "null_commit", "dirty_flag", "empty_selection",
              "out_dir", "out_file", "out_relative_name_with_colon", "restore_into_cleaned",
-             "stale_temporary_archive_index"]
+             "stale_temporary_archive_index", "unrecorded_leftover_directories_in_the_destination"]
 TECHNIQUE = "property-based round-trip testing (Hypothesis): archive -> restore with real tar; model selection + tree snapshots as oracle"
 LEVEL_TEXT = "Randomised round-trip search over index contents, output trees and flags; exact equality of rows and trees in both projects."
 LEVEL_NOTE = "Trusted: the selection model in this file; vf/trees.py."
@@ -92,6 +92,9 @@ def _case(draw, tier):
     # leftover of an earlier `cond archive` that was killed: its temporary index (with some of the rows) still in cond-out
     g["stale_tmp_index"] = draw(st.sampled_from([None, None, None, 1, 2, 3]))
     g["restore_into"] = draw(st.sampled_from(["fresh", "fresh", "cleaned"]))
+    # the destination holds UNRECORDED directories named like versions of the archive (what an interrupted restore of the
+    # same archive, or a killed `cond clean`, leaves behind): the project still "lacks those versions"
+    g["leftovers"] = draw(st.sampled_from([0, 0, 0, 1, 2, 5]))
     return g
 
 
@@ -283,6 +286,14 @@ def _run(case, src, dst, aux):
     else:
         projgen.write_project(dst, case)
         target, archive = dst, out_path
+    if case.get("leftovers") and sel:
+        labels.add("unrecorded_leftover_directories_in_the_destination")
+        for k, (t, ts, _, _) in enumerate(sorted(sel, key=repr)[:case["leftovers"]]):
+            d = projgen.version_dir(target, t, ts)
+            os.makedirs(d, exist_ok=True)
+            if k % 2 == 0:
+                with open(os.path.join(d, "partial-copy.txt"), "w") as f:
+                    f.write("left behind by an interrupted restore")
     if case["out"] == "rel_colon":
         shutil.copy(archive, os.path.join(target, "backup:v1.tar.gz"))
         archive = "backup:v1.tar.gz"
